@@ -186,6 +186,98 @@ def queue_run(ch: Chooser, scratch: str, nsends: int, nreaders: int, maxrecv: in
         shutil.rmtree(d, ignore_errors=True)
 
 
+def overlap_run(ch: Chooser, scratch: str, nsends: int = 3, ngens: int = 2):
+    """One reader object, several receive() iterations alive at once (an iteration is a generator: a consumer may
+    stop pulling from one, start another, and come back).  Every packet sent is handed out exactly once overall."""
+    import tatsu.util.misc as misc
+    from tatsu.packetz.queue import PacketzQueue
+
+    d = tempfile.mkdtemp(dir=scratch)
+    saved_time = misc.time
+    misc.time = FakeTime()
+    cwd = os.getcwd()
+    os.chdir(d)
+    try:
+        real = os.path.join(d, 'q.jsonl')
+        writer = PacketzQueue(real)
+        reader = PacketzQueue(real)
+        sent, delivered, log, bad = [], [], [], []
+        gens = []          # live generators
+        started = 0
+        while True:
+            opts = []
+            if len(sent) < nsends:
+                opts.append(('send',))
+            if started < ngens and sent:
+                opts.append(('begin',))
+            for i, g in enumerate(gens):
+                if g is not None:
+                    opts.append(('step', i))
+            opts.append(('stop',))
+            act = opts[ch.pick(len(opts), 'event')]
+            if act[0] == 'stop':
+                break
+            if act[0] == 'send':
+                to, data = PAYLOADS[len(sent)]
+                p = writer.send(to=to, data=data)
+                sent.append(p.id)
+                log.append(('send', len(sent) - 1))
+            elif act[0] == 'begin':
+                gens.append(reader.receive())
+                started += 1
+                log.append(('begin', len(gens) - 1))
+            else:
+                i = act[1]
+                try:
+                    p = next(gens[i])
+                    delivered.append(p.id)
+                    log.append(('step', i, sent.index(p.id) if p.id in sent else -1))
+                except StopIteration:
+                    gens[i] = None
+                    log.append(('step', i, 'end'))
+                except Exception as e:  # noqa
+                    gens[i] = None
+                    bad.append(('receive-raised', type(e).__name__))
+            if len(delivered) != len(set(delivered)):
+                bad.append(('packet-delivered-twice', [sent.index(x) for x in delivered]))
+                break
+        # closing: abandon the suspended iterations, then one complete receive
+        for g in gens:
+            if g is not None:
+                g.close()
+        try:
+            for p in reader.receive():
+                delivered.append(p.id)
+        except Exception as e:  # noqa
+            bad.append(('final-receive-raised', type(e).__name__))
+        if sorted(delivered) != sorted(sent):
+            bad.append(('overlapping-receives-lose-or-repeat-packets', [sent.index(x) if x in sent else -1 for x in delivered], len(sent)))
+        return tuple(log), bad
+    finally:
+        misc.time = saved_time
+        os.chdir(cwd)
+        shutil.rmtree(d, ignore_errors=True)
+
+
+def overlap_shard(m, items, bound=None):
+    scratch = tempfile.mkdtemp(prefix='verif-c19o-', dir='/dev/shm' if os.path.isdir('/dev/shm') else None)
+    try:
+        for root in items:
+            outs = set()
+            for choices, ch, (obs, bad) in explore(lambda c: overlap_run(c, scratch), bound=bound, root=root):
+                m.add('evaluations')
+                m.add('transitions', len(obs))
+                if sum(1 for e in obs if e[0] == 'begin') > 1:
+                    m.add('nontrivial')
+                outs.add(obs)
+                for b in bad:
+                    m.violation(f'queue/{b[0]}', choices=choices, log=obs, detail=b)
+            m.add('states', len(outs))
+            m.add('overlap_executions', len(outs))
+    finally:
+        shutil.rmtree(scratch, ignore_errors=True)
+
+
 def queue_shard(m, items):
     scratch = tempfile.mkdtemp(prefix='verif-c19-', dir='/dev/shm' if os.path.isdir('/dev/shm') else None)
     try:
@@ -241,6 +333,14 @@ def run(rc):
     cfgs = [(1, 1, 2, None), (2, 1, 2, None), (2, 2, 1, None), (2, 1, 3, 2), (3, 1, 2, 2), (2, 2, 2, 2)]
     if not quick:
         cfgs = [(1, 1, 2, None), (2, 1, 2, None), (2, 2, 1, None), (2, 1, 3, 3), (3, 1, 2, 3), (2, 2, 2, 3), (3, 1, 3, 3), (3, 2, 2, 2), (4, 1, 2, 2)]
+    obound = None       # the complete tree: 1 731 executions
+    scratch = tempfile.mkdtemp(prefix='verif-c19p-', dir='/dev/shm' if os.path.isdir('/dev/shm') else None)
+    try:
+        roots = list(split_prefixes(lambda ch: overlap_run(ch, scratch), 3, obound))
+    finally:
+        shutil.rmtree(scratch, ignore_errors=True)
+    rc.pmap(overlap_shard, roots, chunk=1, bound=obound)
+    rc.coverage['overlapping_receive_executions'] = rc.count('overlap_executions')
     work = queue_work(cfgs)
     rc.pmap(queue_shard, work, chunk=1)
     rc.coverage['queue_subtrees'] = len(work)
@@ -248,7 +348,8 @@ def run(rc):
     rc.rule = (f'codec: all strings of length <= {maxlen} over {{~ a 1 " \\ e @ : {{ f space ESC LF}} as data, recipient, dict value, dict key and nested '
                'list through pack->unpack, and through rle_encode->rle_decode; queue: every interleaving of k sends and receives by 1-2 readers on a real '
                'file, each receive seeing the whole file or the file cut at every byte offset of the last record (full choice tree for small '
-               'configurations, deviation-bounded for larger ones); non-trivial = string using an encoding character / schedule with a non-default choice')
+               'configurations, deviation-bounded for larger ones); and every interleaving of 3 sends with two receive() iterations that are alive at the same '
+               'time on one reader object, stepped packet by packet; non-trivial = string using an encoding character / schedule with a non-default choice')
     rc.coverage.update({'states': c.get('states', 0), 'transitions': c.get('transitions', 0),
                         'traces_validated_against_impl': c.get('evaluations', 0), 'queue_configs': cfgs})
     if any(b is not None for *_x, b in cfgs):
